@@ -44,6 +44,10 @@ func c35GenSched(rt *rapid.T, name string) reffee.BlobSchedule {
 	max := int64(rapid.IntRange(1, 64).Draw(rt, name+"max"))
 	target := int64(rapid.IntRange(0, int(max)).Draw(rt, name+"target"))
 	frac := rapid.SampledFrom([]int64{1, 2, 3, 1000, 131072, 3338477, 5007716, 1 << 32, 1 << 40}).Draw(rt, name+"frac")
+	// keep target/fraction moderate so that the fee at "excess around the target" stays computable (e^ratio)
+	if tg := target * reffee.GasPerBlob; tg > 300*frac {
+		frac = tg / int64(rapid.IntRange(1, 300).Draw(rt, name+"fracdiv"))
+	}
 	return reffee.BlobSchedule{Target: target, Max: max, UpdateFraction: frac}
 }
 
@@ -142,6 +146,15 @@ func (w *c35World) genTime(rt *rapid.T, label string) uint64 {
 // bounded (the blob fee is e^(excess/fraction): the specification's loop needs about
 // 2.7*ratio iterations, so the ratio is kept <= 700).
 func c35GenExcess(rt *rapid.T, s reffee.BlobSchedule, label string) uint64 {
+	frac := uint64(s.UpdateFraction)
+	v := c35GenExcessRaw(rt, s, label)
+	if v > 700*frac {
+		v = 700 * frac
+	}
+	return v
+}
+
+func c35GenExcessRaw(rt *rapid.T, s reffee.BlobSchedule, label string) uint64 {
 	frac := uint64(s.UpdateFraction)
 	switch rapid.IntRange(0, 7).Draw(rt, label+"kind") {
 	case 0:
